@@ -127,3 +127,28 @@ func Build(t *tape.Tape) (*Info, error) {
 	d.Chains[c1] = []pdf.Reference{c1, c2, d.Dicts[0]}
 	return d, nil
 }
+
+// NoLengthFile assembles by hand a small file whose only stream has no
+// /Length entry, so that a reader has to find the end of the data by looking
+// for the endstream keyword and has to decide which end-of-line marker in
+// front of it belongs to the syntax.  The marker (LF, CR LF or CR) and the body
+// depend on the seed; the body never ends in an end-of-line byte.
+func NoLengthFile(seed int) (img []byte, ref pdf.Reference, body []byte) {
+	eol := []string{"\n", "\r\n", "\r"}[seed%3]
+	body = bytes.Repeat([]byte(fmt.Sprintf("no length %d;", seed)), 20+seed%50)
+	var b bytes.Buffer
+	var offs [4]int
+	b.WriteString("%PDF-1.7\n%\xe2\xe3\xcf\xd3\n")
+	offs[1] = b.Len()
+	b.WriteString("1 0 obj\n<< /Type /Catalog /Pages 2 0 R >>\nendobj\n")
+	offs[2] = b.Len()
+	b.WriteString("2 0 obj\n<< /Type /Pages /Kids [] /Count 0 >>\nendobj\n")
+	offs[3] = b.Len()
+	b.WriteString("3 0 obj\n<< /Kind /NoLength >>\nstream\n")
+	b.Write(body)
+	b.WriteString(eol + "endstream\nendobj\n")
+	xref := b.Len()
+	fmt.Fprintf(&b, "xref\n0 4\n0000000000 65535 f \n%010d 00000 n \n%010d 00000 n \n%010d 00000 n \n", offs[1], offs[2], offs[3])
+	fmt.Fprintf(&b, "trailer\n<< /Size 4 /Root 1 0 R >>\nstartxref\n%d\n%%%%EOF\n", xref)
+	return b.Bytes(), pdf.NewReference(3, 0), body
+}
